@@ -9,11 +9,13 @@ import (
 	"encoding/binary"
 	"fmt"
 	"io"
+	"runtime"
 	"sort"
 	"strings"
 	"sync"
 
 	"github.com/zmap/zcrypto/tls"
+	"golang.org/x/sys/cpu"
 	"verifmc/internal/ev"
 	"verifmc/internal/tlsx"
 )
@@ -40,8 +42,39 @@ type connObs struct {
 	Records     int
 	MitmApplied bool
 	DataErr     string
+	CHs         []*clientHello // ClientHello message(s) as sent
+	Flight      *serverFlight  // plaintext Certificate / ServerKeyExchange (TLS <= 1.2)
+	PeerLeaf    []byte         // client ConnectionState.PeerCertificates[0].Raw
 	digest      [32]byte
 }
+
+func (o *connObs) lastCH() *clientHello {
+	if n := len(o.CHs); n > 0 {
+		return o.CHs[n-1]
+	}
+	return nil
+}
+
+// aesHardware: does this machine have the AES-GCM hardware support the TLS 1.3
+// server comments talk about (AES + carry-less multiply instructions)?
+// 1 yes, 0 no, -1 unknown for this architecture.
+func aesHardware() int {
+	b := func(x bool) int {
+		if x {
+			return 1
+		}
+		return 0
+	}
+	switch runtime.GOARCH {
+	case "amd64":
+		return b(cpu.X86.HasAES && cpu.X86.HasPCLMULQDQ)
+	case "arm64":
+		return b(cpu.ARM64.HasAES && cpu.ARM64.HasPMULL)
+	}
+	return -1
+}
+
+var aesHW = aesHardware()
 
 func (o *connObs) hello() *serverHello {
 	if n := len(o.Hellos); n > 0 && !o.Hellos[n-1].HRR {
@@ -79,8 +112,31 @@ func curveIDs(l []uint16) []tls.CurveID {
 }
 
 func buildConfigs(c Cfg) (cc, sc *tls.Config) {
-	id := tlsx.ServerIdentity(c.Key)
+	fixtures := strings.Split(c.Key, "+")
+	id := tlsx.ServerIdentity(fixtures[0])
 	cc, sc = tlsx.BaseConfigs(id, c.key())
+	if len(fixtures) > 1 || c.GetCert {
+		var chains []tls.Certificate
+		for _, f := range fixtures {
+			x := tlsx.ServerIdentity(f)
+			chains = append(chains, x.TLSCert())
+			cc.RootCAs.AddCert(x.Root.X)
+		}
+		sc.Certificates = chains
+		if c.GetCert {
+			// the documented idiom: the callback walks its chains and returns the first
+			// one ClientHelloInfo.SupportsCertificate accepts, else the first.
+			sc.Certificates = nil
+			sc.GetCertificate = func(chi *tls.ClientHelloInfo) (*tls.Certificate, error) {
+				for i := range chains {
+					if chi.SupportsCertificate(&chains[i]) == nil {
+						return &chains[i], nil
+					}
+				}
+				return &chains[0], nil
+			}
+		}
+	}
 	cc.MinVersion, cc.MaxVersion = c.CMin, c.CMax
 	sc.MinVersion, sc.MaxVersion = c.SMin, c.SMax
 	if c.CS != nil {
@@ -145,6 +201,9 @@ func runConn(cc, sc *tls.Config, down uint16) *connObs {
 	s := tlsx.Handshake(cc, sc, prep)
 	o.MitmApplied = applied
 	o.C, o.S = side(&s.Client), side(&s.Server)
+	if o.C.OK && len(s.Client.State.PeerCertificates) > 0 {
+		o.PeerLeaf = append([]byte(nil), s.Client.State.PeerCertificates[0].Raw...)
+	}
 	if o.C.OK && o.S.OK {
 		// exported keying material, RFC 5705 / RFC 8446 §7.5
 		var all []byte
@@ -203,6 +262,11 @@ func runConn(cc, sc *tls.Config, down uint16) *connObs {
 	copy(o.digest[:], h.Sum(nil))
 	s2c := s.Net.Stream(tlsx.S2C)
 	o.Hellos = serverHellos(s2c)
+	o.CHs = clientHellos(s.Net.Stream(tlsx.C2S))
+	if h := o.hello(); h != nil && h.Version <= V12 {
+		si, _ := suiteOf(h.Suite)
+		o.Flight = parseServerFlight(s2c, strings.HasPrefix(si.Kx, "ECDHE"), h.Version == V12)
+	}
 	o.Records = len(tlsx.ParseRecords(s2c)) + len(tlsx.ParseRecords(s.Net.Stream(tlsx.C2S)))
 	o.LaterTypes, o.ClientAlert = clientLaterRecords(s.Net)
 	return o
@@ -368,7 +432,11 @@ func (r *reporter) check(m *model, c Cfg, obs []*connObs) {
 							kx = "mixed"
 						}
 					}
-					r.agg.add(conn+" handshake failed: "+cls, kx+"/"+keyKind(c.Key),
+					kk := keyKind(c.Key)
+					if strings.Contains(c.Key, "+") {
+						kk = "several chains"
+					}
+					r.agg.add(conn+" handshake failed: "+cls, kx+"/"+kk,
 						witness{c, i, fmt.Sprintf("model: version %s candidates %v", vname(p.Version), names(p.Cands)), o.summary()})
 				}
 				r.hist["VIOLATION/interop-failure"]++
@@ -454,22 +522,73 @@ func (r *reporter) check(m *model, c Cfg, obs []*connObs) {
 			if !p.Overlap {
 				viol(i, "suite: TLS 1.3 completed without a common key exchange group", "")
 			}
-		} else if ok, why := usable12(si, v, keyKind(c.Key), p.Overlap, false); !ok {
-			viol(i, "suite: negotiated suite is not usable: "+why, fmt.Sprintf("%s at TLS %s with %s key", sname(s), vname(v), keyKind(c.Key)))
+		} else {
+			ok, why := false, ""
+			for _, ci := range certsOf(c.Key) {
+				var u bool
+				if u, why = usable12(si, v, ci.Kind, p.Overlap, false); u {
+					ok = true
+					break
+				}
+			}
+			if !ok {
+				viol(i, "suite: negotiated suite is not usable: "+why, fmt.Sprintf("%s at TLS %s with key(s) %s", sname(s), vname(v), c.Key))
+			}
 		}
+		// ---- certificate presented, key exchange group
+		presented := r.checkCertificate(m, c, p, i, o, si, known, viol)
+		r.checkGroup(c, i, o, si, known, viol)
 		// preference rule
-		if v == p.Version && p.Exact != 0 && !(second && o.S.Resumed) {
+		exact, exactWhy := p.Exact, p.ExactWhy
+		if v == p.Version && v <= V12 && p.ExactWhy == "multi-cert" {
+			// several chains: the rule is judged among the suites usable with the chain presented
+			if presented >= 0 {
+				one := certsOf(c.Key)[presented : presented+1]
+				cands, doubt := m.cands12(c, &p, one, true)
+				exact, exactWhy = m.exact12(c, &p, cands, doubt)
+			} else {
+				exact, exactWhy = 0, "multi-cert:presented-chain-unknown"
+			}
+		}
+		switch {
+		case v == p.Version && v == V13 && len(p.Cands) > 0 && o.lastCH() != nil:
+			// TLS 1.3: the suite is negotiated afresh on a resumed connection as well
+			allowed, why := m.exact13(c, &p, o.lastCH().Suites, aesHW)
+			if why != "" || len(allowed) == 0 {
+				if why == "" {
+					why = "tls13:no-common-suite-on-the-wire"
+				}
+				r.hist["suite/membership-only:"+why]++
+				break
+			}
+			r.hist["suite/exact-rule-checked(1.3)"]++
+			if len(allowed) > 1 {
+				r.hist["suite/exact-rule-checked(1.3):two-orders-accepted"]++
+			}
+			if !has16(allowed, s) && !c.Prefer && aesHW == 1 && s == firstCommon(deprioritizeAES13(o.lastCH().Suites), p.SEnable13) {
+				// one root cause, one signature: the server believes it has no AES-GCM hardware
+				viol(i, "suite: TLS 1.3, PreferServerCipherSuites=false: AES-GCM moved behind ChaCha20 against the client's order although this machine has AES-GCM hardware",
+					fmt.Sprintf("selected %s, ClientHello offers %v", sname(s), names(o.lastCH().Suites)))
+			} else if !has16(allowed, s) {
+				who := "client"
+				if c.Prefer {
+					who = "server"
+				}
+				viol(i, fmt.Sprintf("suite: TLS 1.3, PreferServerCipherSuites=%v: the %s's most preferred common suite (documented rule incl. the AES-GCM hardware heuristic) was not selected", c.Prefer, who),
+					fmt.Sprintf("selected %s, rule gives %v (ClientHello offers %v, server enables %v, aes hardware=%d)", sname(s), names(allowed), names(o.lastCH().Suites), names(p.SEnable13), aesHW))
+			}
+		case v == p.Version && exact != 0 && !(second && o.S.Resumed):
 			r.hist["suite/exact-rule-checked"]++
-			if s != p.Exact {
+			if s != exact {
 				who := "client"
 				if c.Prefer {
 					who = "server"
 				}
 				viol(i, fmt.Sprintf("suite: PreferServerCipherSuites=%v but the %s's most preferred usable common suite was not selected", c.Prefer, who),
-					fmt.Sprintf("selected %s, rule gives %s (candidates in preference order %v)", sname(s), sname(p.Exact), names(p.Cands)))
+					fmt.Sprintf("selected %s, rule gives %s (candidates in preference order %v)", sname(s), sname(exact), names(p.Cands)))
 			}
-		} else {
-			why := p.ExactWhy
+		default:
+			why := exactWhy
 			if why == "" {
 				why = "model-predicts-no-common-suite"
 			}
@@ -524,6 +643,194 @@ func (r *reporter) check(m *model, c Cfg, obs []*connObs) {
 			r.hist["ok/with-hello-retry-request"]++
 		}
 	}
+}
+
+var schemeKind = map[uint16]string{
+	0x0201: "rsa", 0x0401: "rsa", 0x0501: "rsa", 0x0601: "rsa", 0x0804: "rsa", 0x0805: "rsa", 0x0806: "rsa",
+	0x0203: "ecdsa", 0x0403: "ecdsa", 0x0503: "ecdsa", 0x0603: "ecdsa",
+	0x0807: "ed25519",
+}
+
+// leafIndex: which configured chain has this leaf (-1: none).
+func leafIndex(c Cfg, der []byte) int {
+	for i, f := range strings.Split(c.Key, "+") {
+		if bytes.Equal(tlsx.ServerIdentity(f).Leaf.DER, der) {
+			return i
+		}
+	}
+	return -1
+}
+
+// checkCertificate: the certificate actually presented (the client's view and,
+// below TLS 1.3, the Certificate message on the wire) is a configured chain,
+// fits the negotiated suite and the signature schemes the client offered, and is
+// the one the Config.Certificates rule selects. Returns the index of the chain
+// presented (-1 unknown / resumed).
+func (r *reporter) checkCertificate(m *model, c Cfg, p Pred, i int, o *connObs, si suiteInfo, known bool, viol func(int, string, string)) int {
+	if o.S.Resumed {
+		if o.Flight != nil && o.Flight.HasCert {
+			viol(i, "certificate: Certificate message sent on a resumed connection", "")
+		}
+		return -1
+	}
+	v := o.S.Version
+	if o.PeerLeaf == nil {
+		viol(i, "certificate: the client completed a full handshake without a peer certificate", "")
+		return -1
+	}
+	idx := leafIndex(c, o.PeerLeaf)
+	if idx < 0 {
+		viol(i, "certificate: the leaf the client saw is not the leaf of a configured chain", "")
+		return -1
+	}
+	certs := certsOf(c.Key)
+	ci := certs[idx]
+	multi := len(certs) > 1
+	r.hist[fmt.Sprintf("certificate/presented:%s(chain %d of %d)", ci.Kind, idx+1, len(certs))]++
+	ch := o.lastCH()
+	if v <= V12 {
+		if o.Flight == nil || !o.Flight.HasCert {
+			viol(i, "transcript: no parsable Certificate message in a completed full handshake", "")
+		} else if !bytes.Equal(o.Flight.Leaf, o.PeerLeaf) {
+			viol(i, "transcript: the leaf of the Certificate message differs from the client's PeerCertificates[0]", "")
+		}
+		if known {
+			if ok, why := usable12(si, v, ci.Kind, p.Overlap, false); !ok {
+				viol(i, "certificate: the chain presented does not fit the negotiated suite ("+ci.Kind+" leaf, "+si.Kx+" suite)", why)
+			}
+		}
+		if v == V12 && known && strings.HasPrefix(si.Kx, "ECDHE") && o.Flight != nil && o.Flight.ECDHEOK && ch != nil {
+			sa := o.Flight.SigAlg
+			switch {
+			case !has16(ch.SigAlgs, sa):
+				viol(i, "certificate: ServerKeyExchange is signed with a scheme the client did not offer in signature_algorithms", fmt.Sprintf("%#04x", sa))
+			case schemeKind[sa] != ci.Kind:
+				viol(i, "certificate: ServerKeyExchange signature scheme does not belong to the key type of the chain presented", fmt.Sprintf("scheme %#04x, %s leaf", sa, ci.Kind))
+			default:
+				r.hist["certificate/skx-signature-scheme-offered-and-fits"]++
+			}
+		}
+	} else if ch != nil {
+		// TLS 1.3 (RFC 8446 §4.4.2.2): the leaf key must be usable with a scheme of the
+		// client's signature_algorithms.
+		ok := false
+		for _, sa := range ch.SigAlgs {
+			k := schemeKind[sa]
+			if sa>>8 == 0x02 || (k == "rsa" && sa>>8 != 0x08) {
+				continue // SHA-1 and PKCS#1 v1.5 schemes do not exist for TLS 1.3 signatures
+			}
+			if k == ci.Kind && (k != "ecdsa" || sa == 0x0403) {
+				ok = true
+			}
+		}
+		if !ok {
+			viol(i, "certificate: the chain presented at TLS 1.3 has no signature scheme among the client's signature_algorithms", ci.Kind)
+		}
+	}
+	if multi {
+		// Config.Certificates: "The first certificate compatible with the peer's
+		// requirements is selected automatically."
+		want, firm := -1, false
+		cc, sc := curvesOf(c.CCurves), curvesOf(c.SCurves)
+		for k, x := range certs {
+			strict, loose := v == V13, v == V13
+			if v <= V12 {
+				for _, id := range p.COffer12 {
+					if s, ok := suiteOf(id); ok && has16(p.SEnable12, id) {
+						strict = strict || fits(s, v, x, p.Overlap, cc, sc, true, true)
+						loose = loose || fits(s, v, x, p.Overlap, cc, sc, true, false)
+					}
+				}
+			}
+			if strict {
+				want, firm = k, true
+				break
+			}
+			if loose {
+				break
+			}
+		}
+		switch {
+		case !firm:
+			r.hist["certificate/selection:not-predicted(an earlier chain fits loosely only)"]++
+		case want != idx:
+			viol(i, "certificate: not the first configured chain compatible with the client's offer (Config.Certificates rule)",
+				fmt.Sprintf("presented chain %d (%s), first compatible chain %d (%s)", idx+1, ci.Kind, want+1, certs[want].Kind))
+		default:
+			r.hist["certificate/selection:first-compatible-chain"]++
+		}
+	}
+	return idx
+}
+
+func cname(g uint16) string {
+	switch g {
+	case 23:
+		return "P-256"
+	case 24:
+		return "P-384"
+	case 25:
+		return "P-521"
+	case 29:
+		return "X25519"
+	}
+	return fmt.Sprintf("%#04x", g)
+}
+
+// checkGroup: the (EC)DHE group on the wire lies in both CurvePreferences lists.
+func (r *reporter) checkGroup(c Cfg, i int, o *connObs, si suiteInfo, known bool, viol func(int, string, string)) {
+	cc, sc := curvesOf(c.CCurves), curvesOf(c.SCurves)
+	v := o.S.Version
+	both := func(g uint16, where string) {
+		inC, inS := has16(cc, g), has16(sc, g)
+		switch {
+		case !inC:
+			viol(i, "group: the "+where+" is not in the client's CurvePreferences", fmt.Sprintf("%s, client %v, server %v", cname(g), cc, sc))
+		case !inS:
+			viol(i, "group: the "+where+" is not in the server's CurvePreferences", fmt.Sprintf("%s, client %v, server %v", cname(g), cc, sc))
+		}
+	}
+	if v == V13 {
+		h := o.hello()
+		if h == nil {
+			return
+		}
+		if !h.HasShare {
+			viol(i, "group: TLS 1.3 ServerHello without key_share in a completed handshake", "")
+			return
+		}
+		both(h.Group, "group of the ServerHello key_share")
+		if ch := o.lastCH(); ch != nil && !has16(ch.ShareGrps, h.Group) {
+			viol(i, "group: the ServerHello key_share group is not a group the client sent a share for", fmt.Sprintf("%s, client shares %v", cname(h.Group), ch.ShareGrps))
+		}
+		if len(o.Hellos) > 1 && o.Hellos[0].HRR {
+			hrr := o.Hellos[0]
+			switch {
+			case !hrr.HasShare:
+				r.hist["group/1.3:hello-retry-request-without-selected_group"]++
+			case hrr.Group != h.Group:
+				viol(i, "group: the ServerHello key_share group differs from the HelloRetryRequest selected_group", fmt.Sprintf("%s vs %s", cname(h.Group), cname(hrr.Group)))
+			case len(o.CHs) > 0 && has16(o.CHs[0].ShareGrps, hrr.Group):
+				viol(i, "group: HelloRetryRequest selects a group the first ClientHello already carried a share for (RFC 8446 §4.2.8)", cname(hrr.Group))
+			default:
+				both(hrr.Group, "HelloRetryRequest selected_group")
+				r.hist["group/1.3:after-hello-retry-request:"+cname(h.Group)]++
+			}
+		} else {
+			r.hist["group/1.3:"+cname(h.Group)]++
+		}
+		return
+	}
+	if !known || !strings.HasPrefix(si.Kx, "ECDHE") || o.S.Resumed {
+		return
+	}
+	f := o.Flight
+	if f == nil || !f.HasSKX || !f.ECDHEOK || f.CurveType != 3 {
+		viol(i, "transcript: no parsable named-curve ServerKeyExchange in a completed ECDHE handshake", "")
+		return
+	}
+	both(f.Curve, "named_curve of the ServerKeyExchange")
+	r.hist["group/TLS<=1.2:"+cname(f.Curve)]++
 }
 
 func names(l []uint16) []string {
